@@ -87,6 +87,13 @@ _tok('nullnest', [Rule('start', [[N('e'), N('b'), A]]), Rule('b', [[N('e')]]), R
 _tok('nullnest2', [Rule('start', [[N('m'), N('m'), Opt(B)]]), Rule('m', [[N('e'), N('e')], [A]]), Rule('e', [[], [N('f')]]), Rule('f', [[B, B]])],
      ['A', 'B'], {'ambiguous'})
 
+# an `includes` cycle of three members with look-aheads entering at different members (digraph / SCC handling)
+_tok('rrec3', [Rule('start', [[N('a'), T('W')], [N('b'), T('V')], [N('c'), T('U')]]),
+               Rule('a', [[T('X'), N('b')], [T('N')]]), Rule('b', [[T('Y'), N('c')], [T('N')]]), Rule('c', [[T('Z'), N('a')], [T('N')]])],
+     ['X', 'Y', 'Z', 'N', 'W', 'V', 'U'], {'lalr', 'unamb', 'cnf_ok'})
+# a completed item shared by a context where the input may end and one where it may not ($END among merged look-aheads)
+_tok('endmerge', [Rule('start', [[A, N('e'), C], [B, N('e')]]), Rule('e', [[T('X')]])], ['A', 'B', 'C', 'X'], {'lalr', 'unamb', 'cnf_ok'})
+
 # ambiguity through inlined / conditionally inlined rules and through intermediate nodes
 _tok('amb_inl', [Rule('start', [[N('a'), N('a')]]), Rule('?a', [[N('_b')], [N('c')]]), Rule('_b', [[A], [A, A]]), Rule('c', [[A]])],
      ['A', 'B'], {'ambiguous', 'amb'})
